@@ -343,6 +343,15 @@ def r4_lock(t):
     return _apply_all(t, f)
 
 
+def r4b_drop_guard(t):
+    """after R4 the lock guard is a plain `&mut`; an explicit early `drop(msgmap);` releases nothing and is deleted
+    (leaving it would hand the `&mut` to an unspecified function, which Verus treats as arbitrary mutation)"""
+    def f(t):
+        for m in code_finditer(t.s, t.k, r'\b(?:std::mem::|mem::)?drop\(\s*msgmap\s*\)\s*;'):
+            return (m.start(), m.end(), '')
+    return _apply_all(t, f)
+
+
 def r5_flow(t):
     n = 0
     if any(True for _ in code_finditer(t.s, t.k, r'\b(?:loop|while|for)\b')):
@@ -442,11 +451,11 @@ def r7b_i32max(t):
 
 
 RULES = {
-    'R2': r2_await, 'R3': r3_log, 'R4': r4_lock, 'R5': r5_flow,
+    'R2': r2_await, 'R3': r3_log, 'R4': r4_lock, 'R4b': r4b_drop_guard, 'R5': r5_flow,
     'R6': r6_block_on, 'R7': r7_asserts, 'R7b': r7b_i32max,
 }
 DEFAULT_RULES = ['R6', 'R2', 'R3', 'R7', 'R7b']
-RULE_ORDER = ['R6', 'R2', 'R3', 'R4', 'R5', 'R7', 'R7b']
+RULE_ORDER = ['R6', 'R2', 'R3', 'R4', 'R4b', 'R5', 'R7', 'R7b']
 
 
 # --------------------------------------------------------------------------
@@ -724,6 +733,8 @@ def lift_one(d, repo, canary=False, rename_suffix=None):
         if 'as' in h:
             sig = h['as']
 
+    if 'R4' in d.rules and 'R4b' not in d.rules:
+        d.rules.append('R4b')
     rules = [r for r in RULE_ORDER if r in d.rules]
     if 'arm' in h and 'R5' not in rules:
         rules.append('R5')
